@@ -2,6 +2,7 @@ import SpecVerif.Proofs.Lemmas.DFT
 import SpecVerif.Proofs.Lemmas.WienerKhinchin
 import SpecVerif.Model.Periodogram
 import Mathlib.Algebra.BigOperators.Field
+import SpecVerif.Proofs.Lemmas.CRatField
 /-
   C01 — the periodogram equals the windowed-DFT definition and conserves power.
 
@@ -125,5 +126,38 @@ shows the statement has models and what it says there. -/
 example : nth (speriodogram (twiddles (1 : ℚ) 1) [3] [2] 1 false) 0 = 36 := by
   simp [speriodogram, dftBin, twiddles, vec, nth, abs2, powN, conj]
   norm_num
+
+/-! ### instantiation at the executed scalar type `CRat`
+
+`Lemmas/CRatField.lean` makes the Gaussian rationals of the executable model a `Field` / `StarRing` whose
+operations ARE the model's hand-written instances.  The theorems below are the generic theorems of this
+file specialised to `K := CRat` (by plain application — no rewriting): their statements elaborate to the
+model functions applied to the model's own instances (`CRat.instAdd`, `CRat.instMul`, `CRat.instDiv`, …,
+`CRat.instConj`), i.e. to the code that the differential test executes; `conj` is the model's conjugation.
+The `example … := rfl` lines check that the `Field`-path elaboration used by the generic theorems,
+instantiated at `CRat`, is that very function. -/
+section CRatInstantiation
+
+/-- **`periodogram_eq_def` for the executed model**: every returned bin is `|DFT_NFFT(x·w)[k]|² / N` -/
+theorem periodogram_eq_def_CRat {ω : CRat} {nfft : ℕ} (hn : 0 < nfft) (hω : ω ^ nfft = 1)
+    (x w : List CRat) (hN : x.length ≤ nfft) (isReal : Bool) (k : ℕ)
+    (hk : k < (if isReal then nfft / 2 + 1 else nfft)) :
+    nth (speriodogram (twiddles ω nfft) x w nfft isReal) k
+      = wdft ω x w k * conj (wdft ω x w k) / (x.length : CRat) :=
+  periodogram_eq_def hn hω x w hN isReal k hk
+
+example : (fun (K : Type) [Field K] [StarRing K] => (speriodogram : List K → _)) CRat
+    = @speriodogram CRat CRat.instAdd CRat.instMul CRat.instDiv CRat.instOfNatOfNatNat CRat.instNatCast
+        CRat.instConj := rfl
+example : @speriodogram CRat CRat.instAdd CRat.instMul CRat.instDiv CRat.instOfNatOfNatNat
+    CRat.instNatCast CRat.instConj = speriodogram := rfl
+example : (fun (K : Type) [Field K] [StarRing K] => (twiddles : K → _)) CRat
+    = @twiddles CRat CRat.instMul CRat.instOfNatOfNatNat_1 := rfl
+
+/-- non-vacuity at `CRat`: `ω = i` is a 4th root of unity of the executed scalar type -/
+example : ((⟨0, 1⟩ : CRat) ^ 4 = 1) := by
+  ext <;> simp [pow_succ, CRatL.mul_re, CRatL.mul_im]
+
+end CRatInstantiation
 
 end SpecVerif.C01
